@@ -9,9 +9,13 @@
 //!   `S:<kind letter><index>:<name hex>` · `K:none` / `K:<comment hex>`, then
 //!   `END`, `E:io`, `E:syn:<line>:<col>` or `E:panic`.
 //!   `mode=skip` calls the section transitions without reading the items (header, symbols, comment
-//!   only); `mode=parse` calls `parse()` and prints `P` followed by the same items, derived from the
+//!   only); `mode=m<mask>[.<n>]` reads at most `n` (default: all) items of the sections whose bit is
+//!   set in `mask` (bit i = section i of `SECTIONS`: inputs, latches, outputs, bad, constraints,
+//!   justice sizes, justice literals, fairness, and gates, symbols) and leaves the others without
+//!   reading them; `mode=parse` calls `parse()` and prints `P` followed by the same items, derived from the
 //!   returned `Aig` / `OrderedAig` (nothing but the error if it fails).
-//!   With `ls=1` (one line per read) every item carries `@<bytes delivered by the source>`.
+//!   With `ls=1` (one line per read) every item carries `@<bytes delivered by the source>`, and every
+//!   section transition that returned is an item of its own, `T:<section>@<delivered>`.
 //!   `w=1|2` marks data produced by the crate's own writer (1: `write_aig` / binary
 //!   `write_ordered_aig`, 2: `ascii::Writer::write_ordered_aig`); the Lean driver then also checks
 //!   its writer model against `d`; the harness appends `|W:mismatch` when the real writer, given the
@@ -122,48 +126,89 @@ macro_rules! tr {
     };
 }
 
+/// `while let Some(x) = next()? { push }`, at most `$lim` items (`0` = the section is left without
+/// reading it, `usize::MAX` = drained).
+macro_rules! drain_section {
+    ($items:ident, $lim:expr, $d:expr, $next:expr, $x:ident => $show:expr) => {{
+        let mut taken = 0usize;
+        while taken < $lim {
+            match tr!($items, $next) {
+                Some($x) => { $items.push(($show, $d())); taken += 1; }
+                None => break,
+            }
+        }
+    }};
+}
+
+/// A section transition returned: with `trans` (line sources, C09) the number of bytes the source
+/// has delivered at that moment is observed like an item (`T:<section>@<delivered>`).
+macro_rules! transition {
+    ($items:ident, $trans:expr, $d:expr, $name:expr, $e:expr) => {{
+        let s = tr!($items, $e);
+        if $trans { $items.push((format!("T:{}", $name), $d())); }
+        s
+    }};
+}
+
 /// Sections between the latches and the and gates; the streaming types of the two modules have the
 /// same method names, so one macro serves both.
 macro_rules! mid_sections {
-    ($items:ident, $s:ident, $stream:expr, $d:expr) => {{
-        let mut s = tr!($items, $s.outputs());
-        if $stream { while let Some(x) = tr!($items, s.next_output()) { $items.push((format!("O:{}", x.code()), $d())); } }
-        let mut s = tr!($items, s.bad_state_properties());
-        if $stream { while let Some(x) = tr!($items, s.next_bad_state_property()) { $items.push((format!("B:{}", x.code()), $d())); } }
-        let mut s = tr!($items, s.invariant_constraints());
-        if $stream { while let Some(x) = tr!($items, s.next_invariant_constraint()) { $items.push((format!("C:{}", x.code()), $d())); } }
-        let mut s = tr!($items, s.justice_properties());
-        if $stream { while let Some(x) = tr!($items, s.next_justice_property_size()) { $items.push((format!("JS:{}", x), $d())); } }
-        let mut s = tr!($items, s.justice_property_local_fairness_constraints());
-        if $stream { while let Some(x) = tr!($items, s.next_justice_property_local_fairness_constraint()) { $items.push((format!("J:{}", x.code()), $d())); } }
-        let mut s = tr!($items, s.fairness_constraints());
-        if $stream { while let Some(x) = tr!($items, s.next_fairness_constraint()) { $items.push((format!("F:{}", x.code()), $d())); } }
-        tr!($items, s.and_gates())
+    ($items:ident, $s:ident, $lim:expr, $trans:expr, $d:expr) => {{
+        let mut s = transition!($items, $trans, $d, "outputs", $s.outputs());
+        drain_section!($items, $lim[2], $d, s.next_output(), x => format!("O:{}", x.code()));
+        let mut s = transition!($items, $trans, $d, "bad", s.bad_state_properties());
+        drain_section!($items, $lim[3], $d, s.next_bad_state_property(), x => format!("B:{}", x.code()));
+        let mut s = transition!($items, $trans, $d, "constraints", s.invariant_constraints());
+        drain_section!($items, $lim[4], $d, s.next_invariant_constraint(), x => format!("C:{}", x.code()));
+        let mut s = transition!($items, $trans, $d, "justice", s.justice_properties());
+        drain_section!($items, $lim[5], $d, s.next_justice_property_size(), x => format!("JS:{}", x));
+        let mut s = transition!($items, $trans, $d, "jlits", s.justice_property_local_fairness_constraints());
+        drain_section!($items, $lim[6], $d, s.next_justice_property_local_fairness_constraint(), x => format!("J:{}", x.code()));
+        let mut s = transition!($items, $trans, $d, "fairness", s.fairness_constraints());
+        drain_section!($items, $lim[7], $d, s.next_fairness_constraint(), x => format!("F:{}", x.code()));
+        transition!($items, $trans, $d, "gates", s.and_gates())
     }};
 }
 
 macro_rules! tail_sections {
-    ($items:ident, $s:ident, $d:expr) => {{
-        let mut s = tr!($items, $s.symbols());
-        loop {
-            let it = match tr!($items, s.next_symbol()) {
-                Some(sym) => sym_str(sym.target, sym.name.as_bytes()),
-                None => break,
-            };
-            $items.push((it, $d()));
-        }
+    ($items:ident, $s:ident, $lim:expr, $trans:expr, $d:expr) => {{
+        let mut s = transition!($items, $trans, $d, "symbols", $s.symbols());
+        drain_section!($items, $lim[9], $d, s.next_symbol(), sym => sym_str(sym.target, sym.name.as_bytes()));
         let c = comment_str(tr!($items, s.comment()).map(|c| c.as_bytes()));
         $items.push((c, $d()));
         RunObs { items: $items, fin: "END".into() }
     }};
 }
 
-fn run_typed<L: Lit + 'static>(fmt: &str, mode: &str, src: SchedSource, chunk: usize) -> RunObs {
+/// Sections of the streaming interface in file order (bit / index of a section in `mode=m<mask>`).
+pub const SECTIONS: [&str; 10] = ["inputs", "latches", "outputs", "bad", "constraints", "justice", "jlits", "fairness", "gates", "symbols"];
+
+/// How many items the driver takes from each section before it calls the next transition:
+/// `stream` = all of every section, `skip` = none (but the whole symbol table), `m<mask>[.<n>]` =
+/// at most `n` (default: all) items of the sections whose bit is set in `mask`, none of the others.
+pub fn mode_limits(mode: &str) -> [usize; 10] {
+    match mode {
+        "stream" => [usize::MAX; 10],
+        "skip" => { let mut l = [0; 10]; l[9] = usize::MAX; l }
+        m if m.starts_with('m') => {
+            let (mask, n) = match m[1..].split_once('.') {
+                Some((a, b)) => (a.parse::<usize>().unwrap(), b.parse::<usize>().unwrap()),
+                None => (m[1..].parse::<usize>().unwrap(), usize::MAX),
+            };
+            let mut l = [0; 10];
+            for (i, x) in l.iter_mut().enumerate() { if mask >> i & 1 == 1 { *x = n; } }
+            l
+        }
+        _ => [0; 10],
+    }
+}
+
+fn run_typed<L: Lit + 'static>(fmt: &str, mode: &str, src: SchedSource, chunk: usize, trans: bool) -> RunObs {
     let d = || src.0.borrow().log.len();
     let mut reader = DeferredReader::from_read(src.clone());
     let total = src.0.borrow().data.len();
     crate::eng_cnf::prepare_reader(&mut reader, chunk, total);
-    let stream = mode == "stream";
+    let lim = mode_limits(mode);
     let mut items: Vec<(String, usize)> = vec![];
     if fmt == "aag" {
         let parser = tr!(items, if chunk == crate::eng_cnf::CTOR_FROM_READ {
@@ -182,13 +227,13 @@ fn run_typed<L: Lit + 'static>(fmt: &str, mode: &str, src: SchedSource, chunk: u
         let h = parser.header();
         items.push((header_str(h.max_var_index, h.input_count, h.latch_count, h.output_count, h.and_gate_count,
             h.bad_state_property_count, h.invariant_constraint_count, h.justice_property_count, h.fairness_constraint_count), d()));
-        let mut s = tr!(items, parser.inputs());
-        if stream { while let Some(x) = tr!(items, s.next_input()) { items.push((format!("I:{}", x.code()), d())); } }
-        let mut s = tr!(items, s.latches());
-        if stream { while let Some(x) = tr!(items, s.next_latch()) { items.push((format!("L:{}:{}:{}", x.state.code(), x.next_state.code(), init_str(x.initialization)), d())); } }
-        let mut s = mid_sections!(items, s, stream, d);
-        if stream { while let Some(x) = tr!(items, s.next_and_gate()) { items.push((format!("A:{}:{}:{}", x.output.code(), x.inputs[0].code(), x.inputs[1].code()), d())); } }
-        tail_sections!(items, s, d)
+        let mut s = transition!(items, trans, d, "inputs", parser.inputs());
+        drain_section!(items, lim[0], d, s.next_input(), x => format!("I:{}", x.code()));
+        let mut s = transition!(items, trans, d, "latches", s.latches());
+        drain_section!(items, lim[1], d, s.next_latch(), x => format!("L:{}:{}:{}", x.state.code(), x.next_state.code(), init_str(x.initialization)));
+        let mut s = mid_sections!(items, s, lim, trans, d);
+        drain_section!(items, lim[8], d, s.next_and_gate(), x => format!("A:{}:{}:{}", x.output.code(), x.inputs[0].code(), x.inputs[1].code()));
+        tail_sections!(items, s, lim, trans, d)
     } else {
         let parser = tr!(items, if chunk == crate::eng_cnf::CTOR_FROM_READ {
             binary::Parser::<L>::from_read(src.clone(), binary::Config::default())
@@ -206,11 +251,11 @@ fn run_typed<L: Lit + 'static>(fmt: &str, mode: &str, src: SchedSource, chunk: u
         let h = parser.header();
         items.push((header_str(h.max_var_index, h.input_count, h.latch_count, h.output_count, h.and_gate_count,
             h.bad_state_property_count, h.invariant_constraint_count, h.justice_property_count, h.fairness_constraint_count), d()));
-        let mut s = tr!(items, parser.latches());
-        if stream { while let Some(x) = tr!(items, s.next_latch()) { items.push((format!("L:{}:{}", x.next_state.code(), init_str(x.initialization)), d())); } }
-        let mut s = mid_sections!(items, s, stream, d);
-        if stream { while let Some(x) = tr!(items, s.next_and_gate()) { items.push((format!("A:{}:{}", x.inputs[0].code(), x.inputs[1].code()), d())); } }
-        tail_sections!(items, s, d)
+        let mut s = transition!(items, trans, d, "latches", parser.latches());
+        drain_section!(items, lim[1], d, s.next_latch(), x => format!("L:{}:{}", x.next_state.code(), init_str(x.initialization)));
+        let mut s = mid_sections!(items, s, lim, trans, d);
+        drain_section!(items, lim[8], d, s.next_and_gate(), x => format!("A:{}:{}", x.inputs[0].code(), x.inputs[1].code()));
+        tail_sections!(items, s, lim, trans, d)
     }
 }
 
@@ -234,22 +279,22 @@ impl<const M: usize> Lit for Chk<M> {
 /// The document parsed with the checked literal type whose (even) `MAX_CODE` is `m2`.
 pub fn run_parser_chk(fmt: &str, mode: &str, src: SchedSource, m2: usize) -> Option<RunObs> {
     let r = catch(|| match m2 {
-        2 => run_typed::<Chk<2>>(fmt, mode, src.clone(), 16384),
-        4 => run_typed::<Chk<4>>(fmt, mode, src.clone(), 16384),
-        6 => run_typed::<Chk<6>>(fmt, mode, src.clone(), 16384),
-        8 => run_typed::<Chk<8>>(fmt, mode, src.clone(), 16384),
-        10 => run_typed::<Chk<10>>(fmt, mode, src.clone(), 16384),
-        12 => run_typed::<Chk<12>>(fmt, mode, src.clone(), 16384),
-        14 => run_typed::<Chk<14>>(fmt, mode, src.clone(), 16384),
-        16 => run_typed::<Chk<16>>(fmt, mode, src.clone(), 16384),
-        18 => run_typed::<Chk<18>>(fmt, mode, src.clone(), 16384),
-        20 => run_typed::<Chk<20>>(fmt, mode, src.clone(), 16384),
-        22 => run_typed::<Chk<22>>(fmt, mode, src.clone(), 16384),
-        24 => run_typed::<Chk<24>>(fmt, mode, src.clone(), 16384),
-        26 => run_typed::<Chk<26>>(fmt, mode, src.clone(), 16384),
-        28 => run_typed::<Chk<28>>(fmt, mode, src.clone(), 16384),
-        30 => run_typed::<Chk<30>>(fmt, mode, src.clone(), 16384),
-        32 => run_typed::<Chk<32>>(fmt, mode, src.clone(), 16384),
+        2 => run_typed::<Chk<2>>(fmt, mode, src.clone(), 16384, false),
+        4 => run_typed::<Chk<4>>(fmt, mode, src.clone(), 16384, false),
+        6 => run_typed::<Chk<6>>(fmt, mode, src.clone(), 16384, false),
+        8 => run_typed::<Chk<8>>(fmt, mode, src.clone(), 16384, false),
+        10 => run_typed::<Chk<10>>(fmt, mode, src.clone(), 16384, false),
+        12 => run_typed::<Chk<12>>(fmt, mode, src.clone(), 16384, false),
+        14 => run_typed::<Chk<14>>(fmt, mode, src.clone(), 16384, false),
+        16 => run_typed::<Chk<16>>(fmt, mode, src.clone(), 16384, false),
+        18 => run_typed::<Chk<18>>(fmt, mode, src.clone(), 16384, false),
+        20 => run_typed::<Chk<20>>(fmt, mode, src.clone(), 16384, false),
+        22 => run_typed::<Chk<22>>(fmt, mode, src.clone(), 16384, false),
+        24 => run_typed::<Chk<24>>(fmt, mode, src.clone(), 16384, false),
+        26 => run_typed::<Chk<26>>(fmt, mode, src.clone(), 16384, false),
+        28 => run_typed::<Chk<28>>(fmt, mode, src.clone(), 16384, false),
+        30 => run_typed::<Chk<30>>(fmt, mode, src.clone(), 16384, false),
+        32 => run_typed::<Chk<32>>(fmt, mode, src.clone(), 16384, false),
         _ => RunObs { items: vec![], fin: "SKIP".into() },
     });
     match r {
@@ -260,12 +305,17 @@ pub fn run_parser_chk(fmt: &str, mode: &str, src: SchedSource, m2: usize) -> Opt
 }
 
 pub fn run_parser(fmt: &str, ty: &str, mode: &str, src: SchedSource, chunk: usize) -> RunObs {
+    run_parser_t(fmt, ty, mode, src, chunk, false)
+}
+
+/// As `run_parser`; with `trans` every section transition is observed as a pseudo-item.
+pub fn run_parser_t(fmt: &str, ty: &str, mode: &str, src: SchedSource, chunk: usize, trans: bool) -> RunObs {
     let r = catch(|| match ty {
-        "u8" => run_typed::<u8>(fmt, mode, src.clone(), chunk),
-        "u16" => run_typed::<u16>(fmt, mode, src.clone(), chunk),
-        "u32" => run_typed::<u32>(fmt, mode, src.clone(), chunk),
-        "u64" => run_typed::<u64>(fmt, mode, src.clone(), chunk),
-        "usize" => run_typed::<usize>(fmt, mode, src.clone(), chunk),
+        "u8" => run_typed::<u8>(fmt, mode, src.clone(), chunk, trans),
+        "u16" => run_typed::<u16>(fmt, mode, src.clone(), chunk, trans),
+        "u32" => run_typed::<u32>(fmt, mode, src.clone(), chunk, trans),
+        "u64" => run_typed::<u64>(fmt, mode, src.clone(), chunk, trans),
+        "usize" => run_typed::<usize>(fmt, mode, src.clone(), chunk, trans),
         _ => panic!("bad type"),
     });
     r.unwrap_or(RunObs { items: vec![], fin: "E:panic".into() })
@@ -805,26 +855,51 @@ pub fn run_case(line: &str) -> (String, Vec<String>) {
         // C09: one line per read (a line longer than the chunk in chunk-sized pieces)
         let chunk = c.chunk.unwrap_or(16384);
         let sched = if c.chunk.is_some() { piece_schedule(&delivered, chunk) } else { line_schedule(&delivered) };
-        let obs = run_parser(&c.fmt, &c.ty, &c.mode, mk(sched), chunk);
+        let obs = run_parser_t(&c.fmt, &c.ty, &c.mode, mk(sched), chunk, true);
         if obs.fin == "E:panic" {
             fails.push("C05:parser panicked".into());
         }
-        if !fault && c.mode == "stream" {
+        if !fault && c.mode != "parse" {
             if let Ok(rd) = reference_read(&c.fmt, &c.ty, &delivered) {
+                // section of an item by its tag: header -1, then the index in `SECTIONS`, comment 10
+                let sec = |item: &str| -> i32 {
+                    match item.split(':').next().unwrap_or("") {
+                        "H" => -1, "I" => 0, "L" => 1, "O" => 2, "B" => 3, "C" => 4, "JS" => 5, "J" => 6, "F" => 7, "A" => 8, "S" => 9,
+                        _ => 10,
+                    }
+                };
+                // end of the last item of the text in front of section i (at least the header)
+                let mut before = [0usize; 11];
+                for (it, end) in &rd.items {
+                    let s = sec(it);
+                    for (i, b) in before.iter_mut().enumerate() { if s < i as i32 { *b = *end; } }
+                }
                 // `lim` is the end of the line that contains byte `from`; it stays valid for every
                 // later byte before `lim` (one scan per line, not per item)
                 let (mut from, mut lim) = (0usize, 0usize);
                 let mut reported = 0;
+                // items handed out are, section by section, a prefix of the section's items in the
+                // text: `r` walks the text's items
+                let mut r = 0usize;
                 for (i, (item, d)) in obs.items.iter().enumerate() {
                     if item.starts_with("K:") { continue; }
-                    if let Some((_, end)) = rd.items.get(i) {
-                        let p = end.saturating_sub(1);
-                        if !(lim > 0 && p >= from && p < lim) {
-                            from = p;
-                            lim = raw_line_end(&delivered, p);
-                        }
-                        if *d > lim && reported < 8 {
-                            reported += 1;
+                    let (end, what) = if let Some(name) = item.strip_prefix("T:") {
+                        match SECTIONS.iter().position(|s| *s == name) { Some(si) => (before[si], true), None => continue }
+                    } else {
+                        let tag = sec(item);
+                        while r < rd.items.len() && sec(&rd.items[r].0) != tag { r += 1; }
+                        match rd.items.get(r) { Some((_, end)) => { r += 1; (*end, false) } None => continue }
+                    };
+                    let p = end.saturating_sub(1);
+                    if !(lim > 0 && p >= from && p < lim) {
+                        from = p;
+                        lim = raw_line_end(&delivered, p);
+                    }
+                    if *d > lim && reported < 8 {
+                        reported += 1;
+                        if what {
+                            fails.push(format!("C09:section transition {} ({}) returned after {} bytes were pulled, the line that completes the sections in front of it ends at {}", i, clip(item), d, lim));
+                        } else {
                             fails.push(format!("C09:item {} ({}) returned after {} bytes were pulled, the line that completes it ends at {}", i, clip(item), d, lim));
                         }
                     }
